@@ -220,7 +220,14 @@ impl Options {
 		for i in 0..self.columns.len() {
 			metadata.push(format!("col{}={}", i, self.columns[i].as_string()));
 		}
-		try_io!(std::fs::write(path, metadata.join("\n")));
+		// Write a new file and move it into place: a process that stops half way must leave
+		// either no metadata (the database is created again) or the previous one, never an
+		// empty or truncated file that makes every later open fail.
+		let mut tmp = path.as_os_str().to_owned();
+		tmp.push(".tmp");
+		let tmp = std::path::PathBuf::from(tmp);
+		try_io!(std::fs::write(&tmp, metadata.join("\n")));
+		try_io!(std::fs::rename(&tmp, path));
 		Ok(())
 	}
 
